@@ -10,7 +10,7 @@ use std::collections::BTreeSet;
 use std::sync::atomic::Ordering;
 use std::sync::Arc;
 
-pub const COUNTERS: &[&str] = &["values", "unary_law_checks", "binary_pairs", "binary_law_checks", "single_squares", "supplementary_values", "irregular_value_law_checks"];
+pub const COUNTERS: &[&str] = &["values", "unary_law_checks", "binary_pairs", "binary_law_checks", "single_squares", "supplementary_values", "irregular_value_law_checks", "iterator_protocol_checks"];
 
 fn model(b: u64) -> BTreeSet<u8> {
     (0..64u8).filter(|s| b & (1u64 << s) != 0).collect()
@@ -98,6 +98,97 @@ fn unary(run: &Run, x: u64) -> u64 {
     n
 }
 
+/// The whole iterator protocol, not only next(): every provided method of `Iterator` that an
+/// implementation may override must agree with plain iteration over the member set.
+fn iter_protocol(run: &Run, x: u64) -> u64 {
+    let m: Vec<u8> = model(x).into_iter().collect();
+    let b = BitBoard(x);
+    let mut n = 0u64;
+    let mut bad = |what: &str, detail: String| {
+        run.report(Violation::new("C20", "iterator-protocol", what, detail, json!({"kind": "bitboard-iter", "value": format!("{x:#018x}")})));
+    };
+    // size_hint at every point of the iteration; exhaustion is stable
+    let mut it = b;
+    for k in 0..=m.len() {
+        let (lo, hi) = it.size_hint();
+        let left = m.len() - k;
+        if lo > left || hi.map(|h| h < left).unwrap_or(false) {
+            bad("size_hint", format!("size_hint() of {x:#018x} after {k} items is ({lo}, {:?}) with {left} items left", hi));
+        }
+        let got = it.next().map(rsq);
+        if got != m.get(k).copied() {
+            bad("next", format!("item {k} of {x:#018x} is {:?}", got));
+        }
+    }
+    if it.next().is_some() || it.next().is_some() {
+        bad("next", format!("{x:#018x} yields items after exhaustion"));
+    }
+    if b.count() != m.len() || b.last().map(rsq) != m.last().copied() || b.min().map(rsq) != m.first().copied() || b.max().map(rsq) != m.last().copied() {
+        bad("count/last/min/max", format!("count / last / min / max of {x:#018x} disagree with its members"));
+    }
+    if b.fold(0u64, |a, s| a.wrapping_mul(67).wrapping_add(rsq(s) as u64 + 1)) != m.iter().fold(0u64, |a, s| a.wrapping_mul(67).wrapping_add(*s as u64 + 1)) {
+        bad("fold", format!("fold over {x:#018x} disagrees with its members"));
+    }
+    n += 4 + m.len() as u64;
+    // nth: every index up to 70, and indices that differ from those only above bit 8 / 16 / 32
+    let mut idx: Vec<usize> = (0..=70usize).collect();
+    for base in [1usize << 8, 1 << 16, 1 << 32, 1 << 48, 1 << 63, usize::MAX - 70] {
+        for d in 0..=70usize {
+            idx.push(base.wrapping_add(d));
+        }
+    }
+    idx.push(usize::MAX);
+    for &i in idx.iter() {
+        let mut it = b;
+        let got = it.nth(i).map(rsq);
+        let want = m.get(i).copied();
+        if got != want {
+            bad("nth", format!("{x:#018x}.nth({i}) = {:?}, expected {:?}", got, want));
+            break;
+        }
+        if want.is_some() {
+            let rest: Vec<u8> = it.take(70).map(rsq).collect();
+            if rest != m[i + 1..] {
+                bad("nth", format!("after {x:#018x}.nth({i}) the remaining items are {:?}", rest));
+                break;
+            }
+        } else if it.take(70).count() != 0 {
+            bad("nth", format!("after {x:#018x}.nth({i}) = None the iterator still yields items"));
+            break;
+        }
+        n += 1;
+    }
+    // adaptors built on nth / try_fold: skip, step_by, take, chained
+    for k in 0..=9usize {
+        let got: Vec<u8> = b.skip(k).take(70).map(rsq).collect();
+        if got != m.iter().copied().skip(k).collect::<Vec<u8>>() {
+            bad("skip", format!("{x:#018x}.skip({k}) yields {:?}", got));
+        }
+        if k >= 1 {
+            let got: Vec<u8> = b.step_by(k).take(70).map(rsq).collect();
+            if got != m.iter().copied().step_by(k).collect::<Vec<u8>>() {
+                bad("step_by", format!("{x:#018x}.step_by({k}) yields {:?}", got));
+            }
+            let got: Vec<u8> = b.skip(1).step_by(k).take(70).map(rsq).collect();
+            if got != m.iter().copied().skip(1).step_by(k).collect::<Vec<u8>>() {
+                bad("step_by", format!("{x:#018x}.skip(1).step_by({k}) yields {:?}", got));
+            }
+        }
+        n += 3;
+    }
+    for big in [64usize, 65, 1 << 32, (1 << 32) + 1, usize::MAX] {
+        if b.skip(big).take(70).count() != 0 {
+            bad("skip", format!("{x:#018x}.skip({big}) yields items"));
+        }
+        n += 1;
+    }
+    let (mut b1, mut b2, mut b3, mut b4) = (b, b, b, b);
+    if b1.position(|s| rsq(s) >= 32) != m.iter().position(|s| *s >= 32) || b2.find(|s| rsq(*s) % 8 == 7).map(rsq) != m.iter().copied().find(|s| s % 8 == 7) || b3.any(|s| rsq(s) == 63) != m.contains(&63) || b4.all(|s| rsq(s) < 63) == m.contains(&63) {
+        bad("position/find/any/all", format!("a searching adaptor over {x:#018x} disagrees with its members"));
+    }
+    n + 1
+}
+
 fn binary(run: &Run, x: u64, y: u64) -> u64 {
     let (a, b) = (BitBoard(x), BitBoard(y));
     let (and, or, xor) = (x & y, x | y, x ^ y);
@@ -144,7 +235,7 @@ fn singles(run: &Run) {
     }
 }
 
-pub const RULE: &str = "value set V = all boards with at most 2 bits, their complements, all 256 unions of ranks, all 256 unions of files, the 30 diagonals, EMPTY and !EMPTY; unary laws (iteration ascending = members, popcnt, to_square = lowest, complement owned/borrowed, reverse_colors = rank flip, Display shape) on every value; binary laws (& | ^ in all four owned/borrowed combinations, six assigning forms, ==) on ALL pairs of V x V; from_square/to_square/set inverse on 64 squares; irregular values enumerated systematically: every 3- and 4-bit board (unary laws), quarter sweeps (each 16-bit quarter of the board through all 65536 contents under three contexts of the other quarters: unary laws, and binary laws against 12 fixed partners in both operand orders), popcount ladders (k lowest / highest / spread bits for every k). Oracle: BTreeSet<u8>. Because the operators are bit-sliced, pairs of <=2-bit boards put every bit position through every (0/1, 0/1) combination. A seeded list of arbitrary 64-bit values is a labelled supplementary sample outside the exhaustive claim. distinct_nontrivial = distinct ordered pairs with both operands non-empty";
+pub const RULE: &str = "value set V = all boards with at most 2 bits, their complements, all 256 unions of ranks, all 256 unions of files, the 30 diagonals, EMPTY and !EMPTY; unary laws (iteration ascending = members, popcnt, to_square = lowest, complement owned/borrowed, reverse_colors = rank flip, Display shape) on every value; binary laws (& | ^ in all four owned/borrowed combinations, six assigning forms, ==) on ALL pairs of V x V; from_square/to_square/set inverse on 64 squares; irregular values enumerated systematically: every 3- and 4-bit board (unary laws), quarter sweeps (each 16-bit quarter of the board through all 65536 contents under three contexts of the other quarters: unary laws, and binary laws against 12 fixed partners in both operand orders), popcount ladders (k lowest / highest / spread bits for every k). the iterator PROTOCOL on V, every 3-bit board, the ladders and a stride of the quarter sweeps: size_hint bounds at every point, stable exhaustion, count / last / min / max / fold, nth(i) for every i <= 70 and for i = 2^8, 2^16, 2^32, 2^48, 2^63 (+0..70), usize::MAX-70..=usize::MAX with the remaining items checked afterwards, skip / step_by / skip+step_by for k <= 9, skip(64, 65, 2^32, 2^32+1, usize::MAX), position / find / any / all. Oracle: BTreeSet<u8>. Because the operators are bit-sliced, pairs of <=2-bit boards put every bit position through every (0/1, 0/1) combination. A seeded list of arbitrary 64-bit values is a labelled supplementary sample outside the exhaustive claim. distinct_nontrivial = distinct ordered pairs with both operands non-empty";
 
 pub fn run(tier: Tier) -> i32 {
     let run = Arc::new(Run::new("C20", tier, COUNTERS));
@@ -218,6 +309,27 @@ pub fn run(tier: Tier) -> i32 {
             }
         }
     }
+    // the iterator protocol on V, on every 3-bit board, on the popcount ladders and on a stride of the quarter sweeps
+    let mut protos: Vec<u64> = v.clone();
+    for k in 0..=64u32 {
+        protos.push(if k == 64 { !0u64 } else { (1u64 << k) - 1 });
+        protos.push(if k == 0 { 0 } else { !0u64 << (64 - k) });
+    }
+    for q in 0..4u32 {
+        for val in (0..65536u64).step_by(7) {
+            protos.push(val << (16 * q));
+            protos.push(!(val << (16 * q)));
+        }
+    }
+    for a in 0..64u64 {
+        for b in (a + 1)..64 {
+            for c in (b + 1)..64 {
+                protos.push((1u64 << a) | (1u64 << b) | (1u64 << c));
+            }
+        }
+    }
+    let proto: u64 = protos.par_iter().map(|&x| if run.has_violation() { 0 } else { iter_protocol(&run, x) }).sum();
+    run.add("iterator_protocol_checks", proto);
     run.add("irregular_value_law_checks", small + sweep + ladder);
     // supplementary sample (labelled): xorshift values from the seed
     let mut s = run.seed ^ 0x9E3779B97F4A7C15;
@@ -245,6 +357,9 @@ pub fn replay(case: &Value) -> i32 {
     let run = Arc::new(Run::new("C20", Tier::Quick, COUNTERS));
     let p = |k: &str| u64::from_str_radix(case[k].as_str().unwrap_or("0x0").trim_start_matches("0x"), 16).unwrap_or(0);
     match case["kind"].as_str() {
+        Some("bitboard-iter") => {
+            iter_protocol(&run, p("value"));
+        }
         Some("bitboard-unary") => {
             singles(&run);
             unary(&run, p("value"));
